@@ -754,3 +754,11 @@ func splitGoal(t string) []string {
 	}
 	return []string{t}
 }
+
+func (e *Enc) strByName() map[string]string {
+	m := map[string]string{}
+	for lit, name := range e.strConsts {
+		m[strings.Trim(name, "|")] = lit
+	}
+	return m
+}
